@@ -99,6 +99,14 @@ def run(ctx, rep):
     r93(ctx, rep)
     check_raise_guards(ctx, rep, "R9.4")
     r95(ctx, rep)
+    from ..report import Renamed
+    rep.rule("R9.6", "the values on which the stopping tests are made are NaN-replaced by the barrier (an undefined constraint never counts as satisfied) - see C08 R8.2")
+    from . import c08
+    c08.r82(ctx, Renamed(rep, to="R9.6"))
+    rep.rule("R9.7", "each stop exception is handled by its own handler leaving with its own status (see C07 R7.1/R7.3)")
+    from . import c07
+    m_ = ctx.func(T.MINIMIZE)
+    c07.r71_r73(ctx, Renamed(rep, to="R9.7"), m_, ctx.func(T.BUILD_RESULT), c07.enum_members(ctx))
 
 
 def r91(ctx, rep, ucr, pruned):
